@@ -27,21 +27,21 @@ func init() {
 			{ID: "C11-R1", Title: "Config reads globals only after init()", Floor: 3, Run: c11r1},
 			{ID: "C11-R2", Title: "module constructors hand out fresh objects", Floor: 10, Run: c11r2},
 			{ID: "C11-R3", Title: "module constructors have a single caller chain", Floor: 3, Run: c11r3},
-			{ID: "C11-R4", Title: "defaults, then deny-list, then overrides", Floor: 3, Run: c11r4},
-			{ID: "C11-R5", Title: "module table is rebuilt for new code", Floor: 2, Run: c11r5},
+			{ID: "C11-R4", Title: "defaults, then deny-list, then overrides", Floor: 1, Run: c11r4},
+			{ID: "C11-R5", Title: "module table is rebuilt for new code", Floor: 1, Run: c11r5},
 			{ID: "C11-R6", Title: "deny-list and override loops visit every entry", Floor: 2, Run: c11r6},
 			{ID: "C11-R7", Title: "top-level globals are not members of a module", Floor: 1, Run: c11r7},
 			{ID: "C11-R8", Title: "Config owns its maps", Floor: 2, Run: configOwnsItsMaps},
 			{ID: "C11-R9", Title: "VMs are not recycled across configurations", Floor: 1, Run: vmNotPooled},
-			{ID: "C11-R10", Title: "Import returns a module object built in that call (shared with C14)", Floor: 2, Run: importersReturnFreshModules},
+			{ID: "C11-R10", Title: "Import returns a module object built in that call (shared with C14)", Floor: 1, Run: importersReturnFreshModules},
 			{ID: "C11-R11", Title: "options record into the deferred tables on every path", Floor: 2, Run: optionsRecordUnconditionally},
 			{ID: "C11-R12", Title: "the deny-list and the overrides only grow", Floor: 2, Run: deferredTablesOnlyGrow},
-			{ID: "C11-R13", Title: "the error of Config.init reaches the caller of Eval/EvalCode/Call", Floor: 3, Run: initErrorReachesTheCaller},
+			{ID: "C11-R13", Title: "the error of Config.init reaches the caller of Eval/EvalCode/Call", Floor: 1, Run: initErrorReachesTheCaller},
 			{ID: "C11-R14", Title: "dotted names are resolved one module per element", Floor: 1, Run: pathDescentAdvances},
 			{ID: "C11-R15", Title: "member builtins point back at the module that holds them, unconditionally", Floor: 1, Run: membersPointBackUnconditionally},
 			{ID: "C11-R16", Title: "the reset before RunCode is decided by what is loaded", Floor: 1, Run: resetLooksAtWhatIsLoaded},
 			{ID: "C11-R17", Title: "configuration errors are not discarded", Floor: 1, Run: configurationErrorsAreNotDiscarded},
-			{ID: "C11-R18", Title: "loaded code entries are fresh (shared with C07)", Floor: 2, Run: loadedCodeEntriesAreFresh},
+			{ID: "C11-R18", Title: "loaded code entries are fresh (shared with C07)", Floor: 1, Run: loadedCodeEntriesAreFresh},
 			{ID: "C11-R19", Title: "supplied globals replace the old ones", Floor: 1, Run: suppliedGlobalsReplaceTheOldOnes},
 			{ID: "C11-R20", Title: "member names are last segments", Floor: 1, Run: memberNamesAreLastSegments},
 			{ID: "C11-R21", Title: "risor.Call runs the given code before it looks the function up (shared with C07-R13)", Floor: 1, Run: callRunsTheCodeFirst},
@@ -52,8 +52,8 @@ func init() {
 			{ID: "C11-R26", Title: "mutex-guarded VM maps are copied, not aliased, into another VM (shared with C09-R5)", Floor: 2, Run: c09r5},
 			{ID: "C11-R27", Title: "defaults do not replace what the host gave (shared with C08-R33)", Floor: 1, Run: defaultsDoNotReplaceWhatTheHostGave},
 			{ID: "C11-R28", Title: "removals come last", Floor: 1, Run: removalsComeLast},
-			{ID: "C11-R29", Title: "a module that is made with members points their back-reference at itself", Floor: 2, Run: membersPointAtTheModuleTheyAreIn},
-			{ID: "C11-R30", Title: "an option of the VM sets its field whatever the value is (shared with C14-R26)", Floor: 3, Run: vmOptionsSetWhatTheyAreGiven},
+			{ID: "C11-R29", Title: "a module that is made with members points their back-reference at itself", Floor: 1, Run: membersPointAtTheModuleTheyAreIn},
+			{ID: "C11-R30", Title: "an option of the VM sets its field whatever the value is (shared with C14-R26)", Floor: 1, Run: vmOptionsSetWhatTheyAreGiven},
 		},
 	})
 }
